@@ -30,6 +30,8 @@ def run(ctx):
     from . import rules_c05 as c05
     from .rules_c11 import _Alias
     ctx.guarded('R14e', c05.LOCAL, lambda: c05.r05d(_Alias(ctx, 'R05d', 'R14e')))
+    ctx.rule('R14f', 'add_data forwards every byte of its buffer to the chunker exactly once (whole buffer, a gap-free cursor, or data.chunks(n)) (= C03-R03c): otherwise the pointer size and total_bytes differ from the bytes fed in')
+    ctx.guarded('R14f', 'data::file_cleaner::SingleFileCleaner::add_data', lambda: __import__('xl.rules_c03', fromlist=['add_data_forwards']).add_data_forwards(_Alias(ctx, 'R03c', 'R14f')))
 
 
 def r14a(ctx):
